@@ -101,6 +101,7 @@ def build(verbose=False) -> tuple[bool, str]:
         reflect.write_kernels()
         reflect.write_basisforms()
         reflect.write_eigenvalues()
+        reflect.write_helpers()
         bad = scan_forbidden()
         if bad:
             return False, "forbidden constructs: " + "; ".join(bad)
